@@ -41,6 +41,7 @@ proof fn vacuity_pre(f: v1::Function, g: v1::Function, x: Map<u64, F64>) require
 ''', 'vacuity: is_neg')
     asm.raw(common.FOOTER)
     return dict(
+        composes_with={'C02': '*'},      # the Function operators used here are the contracts proved in C02
         min_items=5,
         trusted_base=common.TRUSTED_COMMON + common.T4_COLLECTIONS + [
             'T5 ASSUMED callee contract: Neg for Function yields a function whose value is the negated value minus an explicit (uninterpreted) epsilon-drop remainder (dispatch layer decided in C02)',
